@@ -16,7 +16,7 @@
 //!   every distinct observation is printed and must be allowed by the model.
 use scylla::errors::{
     BrokenConnectionError, BrokenConnectionErrorKind, ConnectionPoolError, CqlErrorParseError,
-    CqlRequestSerializationError, CqlResponseKind, CqlResultParseError, DbError,
+    ConnectionError, CqlRequestSerializationError, CqlResponseKind, CqlResultParseError, DbError,
     FrameBodyExtensionsParseError, OperationType, RequestAttemptError, RequestError,
     SerializationError, WriteType,
 };
@@ -57,7 +57,83 @@ const ATTEMPT_NAMES: &[&str] = &[
     "RepreparedIdChanged", "RepreparedIdMissingInBatch", "NonfinishedPagingState",
 ];
 
-fn db_error(name: &str) -> Option<DbError> {
+// ---- field variants (wave-4 follow-up) -------------------------------------------------------
+// An error name may carry a suffix `~<f1>;<f2>;...` that fixes the fields of the constructed value
+// (without suffix: the historical fixed fields).  The model's tables are field-independent (so is the
+// code's classification); the driver drops the suffix.  Replaying a case line rebuilds the same value.
+//   RateLimitReached~op<R|W|O<hex u8>>;rbc<0|1>
+//   Unavailable~<Cl>;<required>;<alive>
+//   ReadTimeout~<Cl>;<received>;<required>;<data_present 0|1>
+//   WriteTimeout~<Cl>;<received>;<required>;<WriteType>
+//   ReadFailure~<Cl>;<received>;<required>;<numfailures>;<data_present>
+//   WriteFailure~<Cl>;<received>;<required>;<numfailures>;<WriteType>
+//   AlreadyExists~<keyspace>;<table>          ("_" = empty string)
+//   FunctionFailure~<keyspace>;<function>;<number of arg types>
+//   Unprepared~<id bytes hex | ->      Other~<code, signed hex>
+//   BrokenConnectionError~<kind>       ConnectionPoolError~<variant>      RequestTimeout~<ms hex>
+//   UnexpectedResponse~<kind>          CqlResultParseError~<id hex>       RepreparedIdChanged~<len>
+//   any DbError: an optional last field `m<text>` sets the server's message ("m_" = empty)
+const CLS: &[(&str, Consistency)] = &[
+    ("Any", Consistency::Any), ("One", Consistency::One), ("Two", Consistency::Two), ("Three", Consistency::Three),
+    ("Quorum", Consistency::Quorum), ("All", Consistency::All), ("LocalQuorum", Consistency::LocalQuorum),
+    ("EachQuorum", Consistency::EachQuorum), ("LocalOne", Consistency::LocalOne), ("Serial", Consistency::Serial),
+    ("LocalSerial", Consistency::LocalSerial),
+];
+const WTS: &[&str] = &["Simple", "Batch", "UnloggedBatch", "Counter", "BatchLog", "Cas", "View", "Cdc", "Other"];
+const BROKEN_KINDS: &[&str] =
+    &["KeepaliveTimeout", "KeepaliveRequestError", "UnexpectedStreamId", "WriteError", "TooManyOrphanedStreamIds", "ChannelError"];
+const POOL_KINDS: &[&str] = &["Initializing", "NodeDisabledByHostFilter", "Broken.ConnectTimeout", "Broken.IoError", "Broken.NoSourcePortForShard", "Broken.BrokenConnection"];
+const RESPONSE_KINDS: &[&str] = &["Error", "Ready", "Result", "Authenticate", "AuthSuccess", "AuthChallenge", "Supported", "Event"];
+
+fn cl_of(s: &str) -> Option<Consistency> {
+    CLS.iter().find(|c| c.0 == s).map(|c| c.1)
+}
+fn cl_name(c: Consistency) -> &'static str {
+    CLS.iter().find(|x| x.1 == c).map(|x| x.0).unwrap_or("?")
+}
+fn wt_of(s: &str) -> Option<WriteType> {
+    Some(match s {
+        "Simple" => WriteType::Simple,
+        "Batch" => WriteType::Batch,
+        "UnloggedBatch" => WriteType::UnloggedBatch,
+        "Counter" => WriteType::Counter,
+        "BatchLog" => WriteType::BatchLog,
+        "Cas" => WriteType::Cas,
+        "View" => WriteType::View,
+        "Cdc" => WriteType::Cdc,
+        "Other" => WriteType::Other("VERIF_ODD".into()),
+        _ => return None,
+    })
+}
+fn wt_name(w: &WriteType) -> &'static str {
+    match w {
+        WriteType::Simple => "Simple",
+        WriteType::Batch => "Batch",
+        WriteType::UnloggedBatch => "UnloggedBatch",
+        WriteType::Counter => "Counter",
+        WriteType::BatchLog => "BatchLog",
+        WriteType::Cas => "Cas",
+        WriteType::View => "View",
+        WriteType::Cdc => "Cdc",
+        _ => "Other",
+    }
+}
+fn num(s: &str) -> Option<i32> {
+    let (neg, r) = match s.strip_prefix('-') { Some(r) => (true, r), None => (false, s) };
+    let v = i64::from_str_radix(r, 16).ok()?;
+    i32::try_from(if neg { -v } else { v }).ok()
+}
+fn text(s: &str) -> String {
+    if s == "_" { String::new() } else { s.to_string() }
+}
+fn untext(s: &str) -> String {
+    if s.is_empty() { "_".into() } else { s.to_string() }
+}
+fn split_variant(name: &str) -> (&str, Option<&str>) {
+    match name.split_once('~') { Some((a, b)) => (a, Some(b)), None => (name, None) }
+}
+
+fn db_error_default(name: &str) -> Option<DbError> {
     let c = Consistency::Quorum;
     Some(match name {
         "SyntaxError" => DbError::SyntaxError,
@@ -84,48 +160,257 @@ fn db_error(name: &str) -> Option<DbError> {
     })
 }
 
-fn attempt_error(name: &str) -> Option<RequestAttemptError> {
-    if let Some(d) = name.strip_prefix("DbError.") {
-        return db_error(d).map(|e| RequestAttemptError::DbError(e, "reason".into()));
-    }
-    Some(match name {
-        "SerializationError" => RequestAttemptError::SerializationError(SerializationError::new(Dummy)),
-        "CqlRequestSerialization" => RequestAttemptError::CqlRequestSerialization(
-            CqlRequestSerializationError::SnapCompressError(Arc::new(Dummy)),
-        ),
-        "UnableToAllocStreamId" => RequestAttemptError::UnableToAllocStreamId,
-        "BrokenConnectionError" => RequestAttemptError::BrokenConnectionError(BrokenConnectionError::from(
-            BrokenConnectionErrorKind::KeepaliveTimeout("127.0.0.1".parse().unwrap()),
-        )),
-        "BodyExtensionsParseError" => {
-            RequestAttemptError::BodyExtensionsParseError(FrameBodyExtensionsParseError::NoCompressionNegotiated)
+/// (error, message) of `<variant>[~fields]`
+fn db_error(full: &str) -> Option<(DbError, String)> {
+    let (name, var) = split_variant(full);
+    let mut f: Vec<&str> = match var { None => return db_error_default(name).map(|e| (e, "reason".to_string())), Some(v) => v.split(';').collect() };
+    let mut msg = "reason".to_string();
+    if let Some(m) = f.last().and_then(|l| l.strip_prefix('m')) {
+        // the message field is told from a keyspace / kind by its position: it is always an EXTRA last field
+        let arity = match name {
+            "RateLimitReached" | "AlreadyExists" => 2,
+            "Unavailable" | "FunctionFailure" => 3,
+            "ReadTimeout" | "WriteTimeout" => 4,
+            "ReadFailure" | "WriteFailure" => 5,
+            "Unprepared" | "Other" => 1,
+            _ => 0,
+        };
+        if f.len() == arity + 1 {
+            msg = text(m);
+            f.pop();
         }
-        "CqlResultParseError" => RequestAttemptError::CqlResultParseError(CqlResultParseError::UnknownResultId(77)),
-        "CqlErrorParseError" => RequestAttemptError::CqlErrorParseError(CqlErrorParseError::ErrorCodeParseError(
-            scylla_cql::frame::frame_errors::LowLevelDeserializationError::InvalidValueLength(-7),
-        )),
-        "UnexpectedResponse" => RequestAttemptError::UnexpectedResponse(CqlResponseKind::Ready),
-        "RepreparedIdChanged" => RequestAttemptError::RepreparedIdChanged {
-            statement: "s".into(),
-            expected_id: vec![1],
-            reprepared_id: vec![2],
+    }
+    let b = |s: &str| match s { "0" => Some(false), "1" => Some(true), _ => None };
+    let e = match (name, f.as_slice()) {
+        ("RateLimitReached", [op, rbc]) => {
+            let op_type = match op.strip_prefix("op")? {
+                "R" => OperationType::Read,
+                "W" => OperationType::Write,
+                o => OperationType::Other(u8::from_str_radix(o.strip_prefix('O')?, 16).ok()?),
+            };
+            DbError::RateLimitReached { op_type, rejected_by_coordinator: b(rbc.strip_prefix("rbc")?)? }
+        }
+        ("Unavailable", [c, r, a]) => DbError::Unavailable { consistency: cl_of(c)?, required: num(r)?, alive: num(a)? },
+        ("ReadTimeout", [c, rc, rq, dp]) => {
+            DbError::ReadTimeout { consistency: cl_of(c)?, received: num(rc)?, required: num(rq)?, data_present: b(dp)? }
+        }
+        ("WriteTimeout", [c, rc, rq, wt]) => {
+            DbError::WriteTimeout { consistency: cl_of(c)?, received: num(rc)?, required: num(rq)?, write_type: wt_of(wt)? }
+        }
+        ("ReadFailure", [c, rc, rq, nf, dp]) => DbError::ReadFailure {
+            consistency: cl_of(c)?, received: num(rc)?, required: num(rq)?, numfailures: num(nf)?, data_present: b(dp)?,
         },
-        "RepreparedIdMissingInBatch" => RequestAttemptError::RepreparedIdMissingInBatch,
-        "NonfinishedPagingState" => RequestAttemptError::NonfinishedPagingState,
+        ("WriteFailure", [c, rc, rq, nf, wt]) => DbError::WriteFailure {
+            consistency: cl_of(c)?, received: num(rc)?, required: num(rq)?, numfailures: num(nf)?, write_type: wt_of(wt)?,
+        },
+        ("AlreadyExists", [k, t]) => DbError::AlreadyExists { keyspace: text(k), table: text(t) },
+        ("FunctionFailure", [k, fun, n]) => DbError::FunctionFailure {
+            keyspace: text(k),
+            function: text(fun),
+            arg_types: (0..num(n)?).map(|i| if i % 2 == 0 { "int".to_string() } else { "frozen<list<text>>".to_string() }).collect(),
+        },
+        ("Unprepared", [id]) => DbError::Unprepared {
+            statement_id: if *id == "-" {
+                bytes::Bytes::new()
+            } else {
+                if id.len() % 2 != 0 { return None; }
+                let mut v = vec![];
+                for i in (0..id.len()).step_by(2) { v.push(u8::from_str_radix(id.get(i..i + 2)?, 16).ok()?); }
+                bytes::Bytes::from(v)
+            },
+        },
+        ("Other", [code]) => DbError::Other(num(code)?),
+        // a variant without fields: only the message can vary
+        (_, []) => db_error_default(name).filter(|_| !matches!(name, "RateLimitReached" | "Unavailable" | "ReadTimeout"
+            | "WriteTimeout" | "ReadFailure" | "WriteFailure" | "AlreadyExists" | "FunctionFailure" | "Unprepared" | "Other"))?,
+        _ => return None,
+    };
+    Some((e, msg))
+}
+
+/// the field suffix of a value, read back from the REAL value (checked against the requested one)
+fn db_variant(d: &DbError) -> Option<String> {
+    Some(match d {
+        DbError::RateLimitReached { op_type, rejected_by_coordinator } => format!(
+            "op{};rbc{}",
+            match op_type { OperationType::Read => "R".to_string(), OperationType::Write => "W".to_string(), OperationType::Other(x) => format!("O{:x}", x) },
+            *rejected_by_coordinator as u8
+        ),
+        DbError::Unavailable { consistency, required, alive } => format!("{};{};{}", cl_name(*consistency), hex_i(*required as i128), hex_i(*alive as i128)),
+        DbError::ReadTimeout { consistency, received, required, data_present } => {
+            format!("{};{};{};{}", cl_name(*consistency), hex_i(*received as i128), hex_i(*required as i128), *data_present as u8)
+        }
+        DbError::WriteTimeout { consistency, received, required, write_type } => {
+            format!("{};{};{};{}", cl_name(*consistency), hex_i(*received as i128), hex_i(*required as i128), wt_name(write_type))
+        }
+        DbError::ReadFailure { consistency, received, required, numfailures, data_present } => format!(
+            "{};{};{};{};{}", cl_name(*consistency), hex_i(*received as i128), hex_i(*required as i128), hex_i(*numfailures as i128), *data_present as u8
+        ),
+        DbError::WriteFailure { consistency, received, required, numfailures, write_type } => format!(
+            "{};{};{};{};{}", cl_name(*consistency), hex_i(*received as i128), hex_i(*required as i128), hex_i(*numfailures as i128), wt_name(write_type)
+        ),
+        DbError::AlreadyExists { keyspace, table } => format!("{};{}", untext(keyspace), untext(table)),
+        DbError::FunctionFailure { keyspace, function, arg_types } => format!("{};{};{:x}", untext(keyspace), untext(function), arg_types.len()),
+        DbError::Unprepared { statement_id } => if statement_id.is_empty() { "-".into() } else { statement_id.iter().map(|b| format!("{:02x}", b)).collect() },
+        DbError::Other(c) => hex_i(*c as i128),
         _ => return None,
     })
 }
 
-fn request_error(name: &str) -> Option<RequestError> {
-    if let Some(a) = name.strip_prefix("LastAttemptError.") {
-        return attempt_error(a).map(RequestError::LastAttemptError);
+/// does the constructed value carry the fields the case line names?
+fn fields_round_trip(full: &str, e: &RequestError) -> bool {
+    let (_, var) = split_variant(full);
+    let var = match var { None => return true, Some(v) => v };
+    match e {
+        RequestError::LastAttemptError(RequestAttemptError::DbError(d, m)) => {
+            let got = db_variant(d).unwrap_or_default();
+            let with_m = if got.is_empty() { format!("m{}", untext(m)) } else { format!("{};m{}", got, untext(m)) };
+            var == got || var == with_m
+        }
+        _ => true,
     }
-    Some(match name {
-        "EmptyPlan" => RequestError::EmptyPlan,
-        "ConnectionPoolError" => RequestError::ConnectionPoolError(ConnectionPoolError::Initializing),
-        "RequestTimeout" => RequestError::RequestTimeout(Duration::from_millis(5)),
+}
+
+fn attempt_error(full: &str) -> Option<RequestAttemptError> {
+    if let Some(d) = full.strip_prefix("DbError.") {
+        return db_error(d).map(|(e, m)| RequestAttemptError::DbError(e, m));
+    }
+    let (name, var) = split_variant(full);
+    let ip: std::net::IpAddr = "127.0.0.1".parse().unwrap();
+    Some(match (name, var) {
+        ("SerializationError", None) => RequestAttemptError::SerializationError(SerializationError::new(Dummy)),
+        ("CqlRequestSerialization", None) => RequestAttemptError::CqlRequestSerialization(
+            CqlRequestSerializationError::SnapCompressError(Arc::new(Dummy)),
+        ),
+        ("UnableToAllocStreamId", None) => RequestAttemptError::UnableToAllocStreamId,
+        ("BrokenConnectionError", k) => RequestAttemptError::BrokenConnectionError(BrokenConnectionError::from(broken_kind(k.unwrap_or("KeepaliveTimeout"), ip)?)),
+        ("BodyExtensionsParseError", None) => {
+            RequestAttemptError::BodyExtensionsParseError(FrameBodyExtensionsParseError::NoCompressionNegotiated)
+        }
+        ("CqlResultParseError", id) => RequestAttemptError::CqlResultParseError(CqlResultParseError::UnknownResultId(match id { None => 77, Some(x) => num(x)? })),
+        ("CqlErrorParseError", None) => RequestAttemptError::CqlErrorParseError(CqlErrorParseError::ErrorCodeParseError(
+            scylla_cql::frame::frame_errors::LowLevelDeserializationError::InvalidValueLength(-7),
+        )),
+        ("UnexpectedResponse", k) => RequestAttemptError::UnexpectedResponse(match k.unwrap_or("Ready") {
+            "Error" => CqlResponseKind::Error,
+            "Ready" => CqlResponseKind::Ready,
+            "Result" => CqlResponseKind::Result,
+            "Authenticate" => CqlResponseKind::Authenticate,
+            "AuthSuccess" => CqlResponseKind::AuthSuccess,
+            "AuthChallenge" => CqlResponseKind::AuthChallenge,
+            "Supported" => CqlResponseKind::Supported,
+            "Event" => CqlResponseKind::Event,
+            _ => return None,
+        }),
+        ("RepreparedIdChanged", n) => {
+            let n = match n { None => 1, Some(x) => num(x)? as usize };
+            RequestAttemptError::RepreparedIdChanged {
+                statement: "s".repeat(n),
+                expected_id: vec![1; n],
+                reprepared_id: vec![2; n],
+            }
+        }
+        ("RepreparedIdMissingInBatch", None) => RequestAttemptError::RepreparedIdMissingInBatch,
+        ("NonfinishedPagingState", None) => RequestAttemptError::NonfinishedPagingState,
         _ => return None,
     })
+}
+
+fn broken_kind(k: &str, ip: std::net::IpAddr) -> Option<BrokenConnectionErrorKind> {
+    Some(match k {
+        "KeepaliveTimeout" => BrokenConnectionErrorKind::KeepaliveTimeout(ip),
+        "KeepaliveRequestError" => BrokenConnectionErrorKind::KeepaliveRequestError(Arc::new(Dummy)),
+        "UnexpectedStreamId" => BrokenConnectionErrorKind::UnexpectedStreamId(-3),
+        "WriteError" => BrokenConnectionErrorKind::WriteError(std::io::Error::new(std::io::ErrorKind::BrokenPipe, "pipe")),
+        "TooManyOrphanedStreamIds" => BrokenConnectionErrorKind::TooManyOrphanedStreamIds(1024),
+        "ChannelError" => BrokenConnectionErrorKind::ChannelError,
+        _ => return None,
+    })
+}
+
+fn request_error(full: &str) -> Option<RequestError> {
+    if let Some(a) = full.strip_prefix("LastAttemptError.") {
+        return attempt_error(a).map(RequestError::LastAttemptError);
+    }
+    let (name, var) = split_variant(full);
+    let ip: std::net::IpAddr = "127.0.0.1".parse().unwrap();
+    Some(match (name, var) {
+        ("EmptyPlan", None) => RequestError::EmptyPlan,
+        ("ConnectionPoolError", k) => RequestError::ConnectionPoolError(match k.unwrap_or("Initializing") {
+            "Initializing" => ConnectionPoolError::Initializing,
+            "NodeDisabledByHostFilter" => ConnectionPoolError::NodeDisabledByHostFilter,
+            "Broken.ConnectTimeout" => ConnectionPoolError::Broken { last_connection_error: ConnectionError::ConnectTimeout },
+            "Broken.IoError" => ConnectionPoolError::Broken {
+                last_connection_error: ConnectionError::IoError(Arc::new(std::io::Error::new(std::io::ErrorKind::ConnectionRefused, "refused"))),
+            },
+            "Broken.NoSourcePortForShard" => ConnectionPoolError::Broken { last_connection_error: ConnectionError::NoSourcePortForShard(3) },
+            "Broken.BrokenConnection" => ConnectionPoolError::Broken {
+                last_connection_error: ConnectionError::BrokenConnection(BrokenConnectionError::from(broken_kind("ChannelError", ip)?)),
+            },
+            _ => return None,
+        }),
+        ("RequestTimeout", ms) => RequestError::RequestTimeout(Duration::from_millis(match ms { None => 5, Some(x) => num(x)? as u64 })),
+        _ => return None,
+    })
+}
+
+/// every field variant generated for an error name (empty: the variant has no fields that are varied)
+fn variants(name: &str) -> Vec<String> {
+    let mut v: Vec<String> = vec![];
+    let counts = [(0, 2), (1, 2), (2, 2), (3, 2)]; // received 0 / < required / = required / > required
+    let short = name.rsplit('.').next().unwrap_or(name);
+    let is_db = name.starts_with("LastAttemptError.DbError.");
+    match short {
+        "RateLimitReached" if is_db => {
+            for op in ["R", "W", "O2", "Off"] {
+                for rbc in [0, 1] {
+                    v.push(format!("op{};rbc{}", op, rbc));
+                }
+            }
+        }
+        "Unavailable" if is_db => {
+            for c in CLS {
+                for (rq, al) in [(2, 0), (2, 1), (3, 3), (1, 2)] {
+                    v.push(format!("{};{:x};{:x}", c.0, rq, al));
+                }
+            }
+        }
+        "ReadTimeout" if is_db => {
+            for c in CLS { for (rc, rq) in counts { for dp in [0, 1] { v.push(format!("{};{:x};{:x};{}", c.0, rc, rq, dp)); } } }
+        }
+        "WriteTimeout" if is_db => {
+            for c in CLS { for (rc, rq) in counts { for wt in WTS { v.push(format!("{};{:x};{:x};{}", c.0, rc, rq, wt)); } } }
+        }
+        "ReadFailure" if is_db => {
+            for c in CLS { for (rc, rq) in counts { for dp in [0, 1] { for nf in [0, 1] { v.push(format!("{};{:x};{:x};{:x};{}", c.0, rc, rq, nf, dp)); } } } }
+        }
+        "WriteFailure" if is_db => {
+            for c in CLS { for (rc, rq) in counts { for wt in WTS { v.push(format!("{};{:x};{:x};{:x};{}", c.0, rc, rq, (rc + 1) % 3, wt)); } } }
+        }
+        "AlreadyExists" if is_db => {
+            for (k, t) in [("k", "t"), ("_", "_"), ("system", "local"), ("Keyspace_With_A_Long_Name_0123456789", "T")] { v.push(format!("{};{}", k, t)); }
+        }
+        "FunctionFailure" if is_db => {
+            for (k, f, n) in [("k", "f", 0), ("_", "_", 0), ("ks", "my_udf", 1), ("ks", "agg", 3)] { v.push(format!("{};{};{:x}", k, f, n)); }
+        }
+        "Unprepared" if is_db => {
+            for id in ["-", "6964", "00", "000102030405060708090a0b0c0d0e0f", "ffffffffffffffffffffffffffffffffffffffffffffffffffffffffffffffff"] { v.push(id.to_string()); }
+        }
+        "Other" if is_db => {
+            // incl. the codes of Unavailable / Overloaded / a rate-limit code a server might advertise
+            for code in ["4321", "0", "-1", "1000", "1001", "7fffffff", "-80000000", "4000"] { v.push(code.to_string()); }
+        }
+        "BrokenConnectionError" => v.extend(BROKEN_KINDS.iter().map(|s| s.to_string())),
+        "ConnectionPoolError" => v.extend(POOL_KINDS.iter().map(|s| s.to_string())),
+        "RequestTimeout" => v.extend(["0", "5", "7530"].iter().map(|s| s.to_string())),
+        "UnexpectedResponse" => v.extend(RESPONSE_KINDS.iter().map(|s| s.to_string())),
+        "CqlResultParseError" => v.extend(["0", "4d", "-1"].iter().map(|s| s.to_string())),
+        "RepreparedIdChanged" => v.extend(["0", "1", "10"].iter().map(|s| s.to_string())),
+        // a DbError variant without fields: the server's message
+        _ if is_db => v.extend(["m_", "mreason", "mrate_limit_unavailable_timeout"].iter().map(|s| s.to_string())),
+        _ => {}
+    }
+    v
 }
 
 /// Name of the variant of an error that came back from the real code (independent of the
@@ -309,7 +594,7 @@ fn run_probe_once(idem: bool, metrics: bool, policy: Option<(usize, u64)>, targe
 fn run_case(case: &str, repeat: usize) -> String {
     let f: Vec<&str> = case.split_whitespace().collect();
     match f.first().copied() {
-        Some("I") if f.len() == 2 => {
+        Some("I") | Some("IF") if f.len() == 2 => {
             let r: Result<u64, RequestError> = if let Some(t) = f[1].strip_prefix('S') {
                 Ok(u64::from_str_radix(t, 16).unwrap_or(0))
             } else if let Some(e) = f[1].strip_prefix('E').and_then(request_error) {
@@ -318,14 +603,15 @@ fn run_case(case: &str, repeat: usize) -> String {
                 return "error bad-result".into();
             };
             // the constructor table must produce the variant it is asked for
+            // ... with the fields the case line names
             if let Err(e) = &r {
-                if format!("E{}", error_name(e)) != f[1] {
+                if format!("E{}", error_name(e)) != split_variant(f[1]).0 || !fields_round_trip(f[1], e) {
                     return "error constructor-table".into();
                 }
             }
             if hooks::can_be_ignored(&r) { "1".into() } else { "0".into() }
         }
-        Some("X") if f.len() == 4 => {
+        Some("X") | Some("XF") if f.len() == 4 => {
             let max = usize::from_str_radix(f[1], 16).unwrap();
             let interval = u64::from_str_radix(f[2], 16).unwrap();
             let mut fibers = vec![];
@@ -339,6 +625,11 @@ fn run_case(case: &str, repeat: usize) -> String {
                         Some(x) => x,
                         None => return "error bad-outcome".into(),
                     };
+                    if let Some(Err(e)) = &out {
+                        if !fields_round_trip(&o[1..], e) {
+                            return "error constructor-table".into();
+                        }
+                    }
                     fibers.push((u64::from_str_radix(d, 16).unwrap(), out));
                 }
             }
@@ -423,7 +714,23 @@ fn all_error_names() -> Vec<String> {
     v
 }
 
+/// attach a field variant (7 of 8 times when the variant has varied fields)
+fn with_variant(r: &mut Rng, out: String) -> String {
+    if let Some(name) = out.strip_prefix('E') {
+        let vs = variants(name);
+        if !vs.is_empty() && !r.chance(1, 8) {
+            return format!("{}~{}", out, r.pick(&vs));
+        }
+    }
+    out
+}
+
 fn gen_out(r: &mut Rng, k: usize, errs: &[String]) -> String {
+    let o = gen_out_class(r, k, errs);
+    with_variant(r, o)
+}
+
+fn gen_out_class(r: &mut Rng, k: usize, errs: &[String]) -> String {
     match r.below(100) {
         0..=44 => format!("E{}", r.pick(IGNORABLE)),
         45..=59 => format!("S{}", hex_u(k as u128 + 1)),
@@ -539,6 +846,33 @@ fn main() {
     for c in std::iter::once("I S1".to_string()).chain(errs.iter().map(|e| format!("I E{}", e))) {
         let o = run_case(&c, 1);
         out.case(&c, &o);
+    }
+    // field variants (wave-4 follow-up): the can_be_ignored table over every generated field variant ...
+    for e in &errs {
+        for v in variants(e) {
+            let c = format!("IF E{}~{}", e, v);
+            let o = run_case(&c, 1);
+            out.case(&c, &o);
+        }
+    }
+    // ... and, directed, each of them through execute: produced by one execution while another one is still
+    // in flight and succeeds later (first / second execution), and as the last result (of two, both orders; alone)
+    let other = "ELastAttemptError.UnableToAllocStreamId";
+    for e in &errs {
+        for v in variants(e) {
+            let x = format!("E{}~{}", e, v);
+            for c in [
+                format!("XF 1 2 3:{},4:S2", x),      // error at 3, the second execution (started at 2) succeeds at 6
+                format!("XF 1 2 6:S1,1:{}", x),      // second execution fails at 3, the first succeeds at 6
+                format!("XF 2 1 2:{},5:S2,1:{}", x, other), // two failures (at 2 and 3) while the success at 6 is pending
+                format!("XF 1 2 3:{},3:{}", other, x), // the last result (at 5) after an ignorable error at 3
+                format!("XF 1 2 5:{},1:{}", x, other), // the last result (at 5), of the FIRST execution
+                format!("XF 0 1 2:{}", x),           // the only result
+            ] {
+                let o = run_case(&c, repeat);
+                out.case(&c, &o);
+            }
+        }
     }
     // exhaustive small part: every (duration, outcome class) assignment to 1 + max executions
     let reps = ["ELastAttemptError.UnableToAllocStreamId", "S", "ELastAttemptError.DbError.Invalid", "N"];
